@@ -122,7 +122,7 @@ Qed.
 
 (* A failing DIRECTORY fsync is covered (audit finding: the code used to swallow it and go on to advance
    the pointer; the repaired code raises, Gen/GenDurable.v records that all 5 calls of a publish are
-   fallible, and wf admits OFail with k = 4): the data file's directory fsync fails (the file stays
+   fallible, and wf accepts OFail with k = 4): the data file's directory fsync fails (the file stays
    linked as an orphan, the marker is removed), then a marker's own directory fsync fails (the marker
    stays), then a further append commits into the same directories.  A 6th failure point does not exist. *)
 Definition ex_dirfail : op := OFail [] (mkPub (P 2 13) [Raw 51]) (Some (mkPub (P 3 14) [Raw 700])) 4.
